@@ -69,7 +69,7 @@ Section Conf.
   Lemma seg_opt_one : forall alts ts x, has_tag ts x = true -> picked G C alts x = true -> seg_ok G C (IOpt alts) (ts, [x]) = true.
   Proof. intros. unfold seg_ok. cbn [fst snd forallb]. now rewrite H, H0. Qed.
 
-  Ltac attrs := unfold attrs_ok_l; cbn; repeat (apply andb_true_intro; split); try reflexivity; try assumption.
+  Ltac attrs := unfold attrs_ok_l; cbn; repeat (apply andb_true_intro; split); try reflexivity; try assumption; try (vm_compute; reflexivity).
   Lemma segs_cons : forall it rest s sr,
     seg_ok G C it s = true -> segs_ok G C rest sr = true -> segs_ok G C (it :: rest) (s :: sr) = true.
   Proof. intros. cbn [segs_ok]. now rewrite H, H0. Qed.
@@ -251,5 +251,141 @@ Section Conf.
     eapply conf_ones; [reflexivity | attrs | reflexivity |]. cbn. split; [|exact I].
     eapply pk with (a := (a_instance_effect, rInstEffect)); [left; reflexivity | reflexivity |].
     eapply conf_ones; [reflexivity | attrs | reflexivity | exact I].
+  Qed.
+
+  (* ---------------------------------------------------------------- effects *)
+  Lemma conf_eparam : forall p, wf_eparam lex p = true ->
+    picked G C [(a_newparam, rNewSurface); (a_newparam, rNewSampler)] (emit_eparam p) = true.
+  Proof.
+    intros [sid img fmt|sid sf mn mg] H; cbn in H; splitb H.
+    - eapply pk with (a := (a_newparam, rNewSurface)); [simpl; tauto | reflexivity |].
+      eapply conf_ones; [reflexivity | attrs | reflexivity |]. cbn. split; [|exact I].
+      eapply pk with (a := (a_surface, rSurface)); [left; reflexivity | reflexivity |].
+      eapply conf_segs with (segs := [([a_init_from], [txt a_init_from img]); ([a_format], [txt a_format fmt])]); shape.
+      segs; first [eapply one_text_seg; [reflexivity | assumption] | eapply optone_text_seg; [reflexivity | apply tval_any]].
+    - eapply pk with (a := (a_newparam, rNewSampler)); [simpl; tauto | reflexivity |].
+      eapply conf_ones; [reflexivity | attrs | reflexivity |]. cbn. split; [|exact I].
+      eapply pk with (a := (a_sampler2D, rSampler)); [left; reflexivity | reflexivity |].
+      eapply conf_segs with (segs := [([a_source], [txt a_source sf]); ([a_minfilter], opt_el (txt a_minfilter) mn);
+                                      ([a_magfilter], opt_el (txt a_magfilter) mg)]); shape.
+      segs; try (eapply opt_text_seg; [reflexivity | assumption]).
+      eapply one_text_seg; [reflexivity | assumption].
+  Qed.
+
+  Lemma conf_colour_val : forall v rc rt, colour_ok lex v = true ->
+    rule_of rc emit_rules = Some (GRule [] (GText (SList SFloat 4 (Some 4)))) ->
+    rule_of rt emit_rules = Some (GRule [req a_texture tNCName; req a_texcoord tNCName] (GKids [])) ->
+    picked G C [(a_color, rc); (a_texture, rt)] (emit_pval v) = true.
+  Proof.
+    intros [l|l|sm tc] rc rt H Hc Ht; cbn in H; try discriminate.
+    - eapply pk with (a := (a_color, rc)); [simpl; tauto | reflexivity | eapply conf_text; eauto].
+    - splitb H. eapply pk with (a := (a_texture, rt)); [simpl; tauto | reflexivity |].
+      eapply conf_ones; [exact Ht | attrs | reflexivity | exact I].
+  Qed.
+
+  Lemma colour_seg : forall name o, oall (colour_ok lex) o = true ->
+    seg_ok G C (IOpt [(name, rColorOrTex)]) ([name], opt_el (emit_prop name []) o) = true.
+  Proof.
+    intros name o H. apply seg_opt. intros v ->. cbn in H. split.
+    - unfold has_tag. cbn. now rewrite N.eqb_refl.
+    - eapply pk with (a := (name, rColorOrTex)); [left; reflexivity | unfold tag_is; cbn; now rewrite N.eqb_refl |].
+      eapply conf_ones; [reflexivity | reflexivity | reflexivity |]. cbn. split; [|exact I].
+      apply conf_colour_val; auto.
+  Qed.
+
+  Lemma transparent_seg : forall (z : bool) o, oall (colour_ok lex) o = true ->
+    seg_ok G C (IOpt [(a_transparent, rTransparent)])
+           ([a_transparent], opt_el (emit_prop a_transparent (if z then [(a_opaque, AStr a_RGB_ZERO)] else [])) o) = true.
+  Proof.
+    intros z o H. apply seg_opt. intros v ->. cbn in H. split; [reflexivity|].
+    eapply pk with (a := (a_transparent, rTransparent)); [left; reflexivity | reflexivity |].
+    eapply conf_ones; [reflexivity | destruct z; attrs | reflexivity |]. cbn. split; [|exact I].
+    apply conf_colour_val; auto.
+  Qed.
+
+  Lemma float_seg : forall name o, oall (float_ok lex) o = true ->
+    seg_ok G C (IOpt [(name, rFloatParam)]) ([name], opt_el (emit_prop name []) o) = true.
+  Proof.
+    intros name o H. apply seg_opt. intros v ->. cbn in H. split.
+    - unfold has_tag. cbn. now rewrite N.eqb_refl.
+    - eapply pk with (a := (name, rFloatParam)); [left; reflexivity | unfold tag_is; cbn; now rewrite N.eqb_refl |].
+      destruct v as [l|l|sm tc]; cbn in H; try discriminate.
+      eapply conf_ones; [reflexivity | reflexivity | reflexivity |]. cbn. split; [|exact I].
+      eapply picked_text; [reflexivity | assumption].
+  Qed.
+
+  Ltac prop_segs := segs; first [apply colour_seg; assumption | apply float_seg; assumption | apply transparent_seg; assumption].
+
+  Lemma conf_shader : forall e, wf_effect lex e = true ->
+    picked G C [(a_phong, rPhong); (a_blinn, rBlinn); (a_lambert, rLambert); (a_constant, rConstant)] (emit_shader e) = true.
+  Proof.
+    intros [id sid ps sh em am di sp shi rf rfy tr try_ ior z ds] H. unfold wf_effect in H. cbn in H. splitb H.
+    unfold emit_shader. cbn [e_shader e_emission e_ambient e_diffuse e_specular e_shininess e_reflective e_reflectivity
+                             e_transparent e_transparency e_ior e_rgbzero shader_tag].
+    destruct sh; cbn in *;
+      repeat match goal with Hn : (_ && _) = true |- _ => apply andb_true_iff in Hn as [? ?] end;
+      repeat match goal with Hn : none ?o = true |- _ => destruct o; [discriminate Hn | clear Hn] end; cbn [opt_el app].
+    - eapply pk with (a := (a_phong, rPhong)); [simpl; tauto | reflexivity |].
+      eapply conf_segs with (segs := [([a_emission], opt_el (emit_prop a_emission []) em); ([a_ambient], opt_el (emit_prop a_ambient []) am);
+        ([a_diffuse], opt_el (emit_prop a_diffuse []) di); ([a_specular], opt_el (emit_prop a_specular []) sp);
+        ([a_shininess], opt_el (emit_prop a_shininess []) shi); ([a_reflective], opt_el (emit_prop a_reflective []) rf);
+        ([a_reflectivity], opt_el (emit_prop a_reflectivity []) rfy);
+        ([a_transparent], opt_el (emit_prop a_transparent (if z then [(a_opaque, AStr a_RGB_ZERO)] else [])) tr);
+        ([a_transparency], opt_el (emit_prop a_transparency []) try_);
+        ([a_index_of_refraction], opt_el (emit_prop a_index_of_refraction []) ior)]); shape.
+      prop_segs.
+    - eapply pk with (a := (a_lambert, rLambert)); [simpl; tauto | reflexivity |].
+      eapply conf_segs with (segs := [([a_emission], opt_el (emit_prop a_emission []) em); ([a_ambient], opt_el (emit_prop a_ambient []) am);
+        ([a_diffuse], opt_el (emit_prop a_diffuse []) di); ([a_reflective], opt_el (emit_prop a_reflective []) rf);
+        ([a_reflectivity], opt_el (emit_prop a_reflectivity []) rfy);
+        ([a_transparent], opt_el (emit_prop a_transparent (if z then [(a_opaque, AStr a_RGB_ZERO)] else [])) tr);
+        ([a_transparency], opt_el (emit_prop a_transparency []) try_);
+        ([a_index_of_refraction], opt_el (emit_prop a_index_of_refraction []) ior)]); shape.
+      prop_segs.
+    - eapply pk with (a := (a_blinn, rBlinn)); [simpl; tauto | reflexivity |].
+      eapply conf_segs with (segs := [([a_emission], opt_el (emit_prop a_emission []) em); ([a_ambient], opt_el (emit_prop a_ambient []) am);
+        ([a_diffuse], opt_el (emit_prop a_diffuse []) di); ([a_specular], opt_el (emit_prop a_specular []) sp);
+        ([a_shininess], opt_el (emit_prop a_shininess []) shi); ([a_reflective], opt_el (emit_prop a_reflective []) rf);
+        ([a_reflectivity], opt_el (emit_prop a_reflectivity []) rfy);
+        ([a_transparent], opt_el (emit_prop a_transparent (if z then [(a_opaque, AStr a_RGB_ZERO)] else [])) tr);
+        ([a_transparency], opt_el (emit_prop a_transparency []) try_);
+        ([a_index_of_refraction], opt_el (emit_prop a_index_of_refraction []) ior)]); shape.
+      prop_segs.
+    - eapply pk with (a := (a_constant, rConstant)); [simpl; tauto | reflexivity |].
+      eapply conf_segs with (segs := [([a_emission], opt_el (emit_prop a_emission []) em); ([a_reflective], opt_el (emit_prop a_reflective []) rf);
+        ([a_reflectivity], opt_el (emit_prop a_reflectivity []) rfy);
+        ([a_transparent], opt_el (emit_prop a_transparent (if z then [(a_opaque, AStr a_RGB_ZERO)] else [])) tr);
+        ([a_transparency], opt_el (emit_prop a_transparency []) try_);
+        ([a_index_of_refraction], opt_el (emit_prop a_index_of_refraction []) ior)]); shape.
+      prop_segs.
+  Qed.
+
+  Lemma conf_ds_extra : forall profile l, aval_is lex (SLex lx_NMTOKEN) (AStr profile) = true ->
+    C rExtra (emit_ds_extra profile l) = true.
+  Proof.
+    intros profile l H.
+    eapply conf_ones; [reflexivity | reflexivity | reflexivity |]. cbn. split; [|exact I].
+    eapply pk with (a := (a_technique, rExtraTech)); [left; reflexivity | reflexivity |].
+    eapply conf_segs with (segs := [([a_double_sided], [txt a_double_sided l])]); shape.
+    attrs.
+  Qed.
+
+  Lemma conf_effect : forall e, wf_lex lex = true -> wf_effect lex e = true -> C rEffect (emit_effect e) = true.
+  Proof.
+    intros e HL H. pose proof (conf_shader e H) as Hsh. unfold wf_lex in HL. splitb HL.
+    unfold wf_effect in H. splitb H.
+    eapply conf_ones; [reflexivity | attrs | reflexivity |]. cbn [xkids el emit_effect ones_ok]. split; [|exact I].
+    eapply pk with (a := (a_profile_COMMON, rProfile)); [left; reflexivity | reflexivity |].
+    eapply conf_segs with (segs := [([a_newparam], map emit_eparam (e_params e));
+                                    ([a_technique], [el a_technique [(a_sid, e_sid e)] None [emit_shader e]]);
+                                    ([a_extra], [emit_ds_extra a_GOOGLEEARTH (e_double_sided e)])]); shape.
+    segs.
+    - apply seg_map. intros p Hp. split; [destruct p; reflexivity|]. apply conf_eparam.
+      match goal with Hf : forallb (wf_eparam lex) _ = true |- _ => rewrite forallb_forall in Hf; auto end.
+    - apply seg_one; [reflexivity|].
+      eapply pk with (a := (a_technique, rFxTechnique)); [left; reflexivity | reflexivity |].
+      eapply conf_ones; [reflexivity | attrs | reflexivity |]. cbn [xkids el ones_ok]. split; [|exact I]. exact Hsh.
+    - apply seg_list. intros x [<-|[]]. split; [reflexivity|].
+      eapply pk with (a := (a_extra, rExtra)); [left; reflexivity | reflexivity |]. apply conf_ds_extra. assumption.
   Qed.
 End Conf.
